@@ -210,6 +210,12 @@ func NewRootConfig(
 		}
 	}
 
+	// The `config` parameter (and with it the ConfigDir template variable) names
+	// the file that is actually in use, also when it was found by searching.
+	if err := k.Set("config", configFile.String()); err != nil {
+		return nil, k, fmt.Errorf("recording config file: %w", err)
+	}
+
 	// Second argument is nil because of a weird bug: https://github.com/knadh/koanf/issues/307
 	if err := k.UnmarshalWithConf("", nil, koanf.UnmarshalConf{
 		DecoderConfig: &mapstructure.DecoderConfig{
